@@ -513,7 +513,7 @@ func workerC07(t *testing.T, out *WorkerOut) {
 				out.Notes[v.Sig]++
 			}
 		}
-		if mine && len(out.Failures) < *flagMaxViol {
+		if mine && keepFailure(len(out.Failures), res) {
 			res.HistText = res.histText()
 			out.Failures = append(out.Failures, res)
 		}
